@@ -3,26 +3,30 @@ From WV Require Import C20.Model.
 Import ListNotations.
 Open Scope Z_scope.
 
+Definition bounded (s : st) : Prop := i_mtime (cur s) <= clock s /\ i_ino (cur s) <= clock s.
+
 Lemma clock_step s e : clock (step s e) = clock s + 1.
 Proof. destruct e as [[]| | | | |]; reflexivity. Qed.
-Lemma mtime_le_clock_step s e : mtime s <= clock s -> mtime (step s e) <= clock (step s e).
-Proof. intros H. destruct e as [[]| | | | |]; cbn; lia. Qed.
+Lemma bounded_step s e : bounded s -> bounded (step s e).
+Proof. intros [H1 H2]. unfold bounded. destruct e as [[]| | | | |]; cbn; lia. Qed.
+Lemma mono_step s e : bounded s -> i_mtime (cur s) <= i_mtime (cur (step s e)) /\ i_ino (cur s) <= i_ino (cur (step s e)).
+Proof. intros [H1 H2]. destruct e as [[]| | | | |]; cbn; lia. Qed.
 
 Lemma run_app a b : run (a ++ b) = fold_left step b (run a).
 Proof. unfold run. apply fold_left_app. Qed.
 
 Lemma fold_clock : forall evs s, clock (fold_left step evs s) = clock s + Z.of_nat (length evs).
 Proof. induction evs as [|e r IH]; intros s; cbn [fold_left length]; [lia|]. rewrite IH, clock_step. lia. Qed.
-Lemma fold_mtime_le : forall evs s, mtime s <= clock s -> mtime (fold_left step evs s) <= clock (fold_left step evs s).
-Proof. induction evs as [|e r IH]; intros s H; cbn [fold_left]; [exact H|]. apply IH. apply mtime_le_clock_step. exact H. Qed.
-Lemma fold_mtime_mono : forall evs s, mtime s <= clock s -> mtime s <= mtime (fold_left step evs s).
+Lemma fold_bounded : forall evs s, bounded s -> bounded (fold_left step evs s).
+Proof. induction evs as [|e r IH]; intros s H; cbn [fold_left]; [exact H|]. apply IH. apply bounded_step. exact H. Qed.
+Lemma fold_mono : forall evs s, bounded s ->
+  i_mtime (cur s) <= i_mtime (cur (fold_left step evs s)) /\ i_ino (cur s) <= i_ino (cur (fold_left step evs s)).
 Proof.
   induction evs as [|e r IH]; intros s H; cbn [fold_left]; [lia|].
-  assert (mtime s <= mtime (step s e)) by (destruct e as [[]| | | | |]; cbn; lia).
-  pose proof (IH (step s e) (mtime_le_clock_step s e H)). lia.
+  pose proof (mono_step s e H). pose proof (IH (step s e) (bounded_step s e H)). lia.
 Qed.
 
-(* no WOpen in a segment: the recorded time is untouched *)
+(* no WOpen in a segment: the recorded identity is untouched *)
 Definition no_open (evs : list event) : Prop := Forall (fun e => e <> WOpen) evs.
 Lemma fold_recorded : forall evs s, no_open evs -> recorded (fold_left step evs s) = recorded s.
 Proof.
@@ -30,46 +34,54 @@ Proof.
   rewrite IH by exact Hr. destruct e as [[]| | | | |]; try reflexivity. contradiction.
 Qed.
 
-Lemma init_ok : mtime init <= clock init. Proof. cbn. lia. Qed.
+Lemma init_ok : bounded init. Proof. unfold bounded. cbn. lia. Qed.
 
-Lemma verify_verdict s : verdict (step s WVerify) = match recorded s with Some r => Some (r =? mtime s) | None => verdict s end.
+Lemma verify_verdict s : verdict (step s WVerify) = match recorded s with Some r => Some (ident_eqb r (cur s)) | None => verdict s end.
 Proof. reflexivity. Qed.
 
 Theorem change_after_open_is_detected before mid1 c mid2 :
-  stamps_now c = true -> no_open mid1 -> no_open mid2 ->
+  visible c = true -> no_open mid1 -> no_open mid2 ->
   verdict (run (before ++ [WOpen] ++ mid1 ++ [Env c] ++ mid2 ++ [WVerify])) = Some false.
 Proof.
   intros Hc H1 H2. unfold run. rewrite !fold_left_app. cbn [fold_left]. fold (run before).
   set (s0 := run before).
-  assert (H0 : mtime s0 <= clock s0) by (apply fold_mtime_le, init_ok).
+  assert (H0 : bounded s0) by (apply fold_bounded, init_ok).
   set (s1 := step s0 WOpen).
-  assert (Hr1 : recorded s1 = Some (mtime s0)) by reflexivity.
-  assert (Hm1 : mtime s1 <= clock s1) by (apply mtime_le_clock_step; exact H0).
+  assert (Hr1 : recorded s1 = Some (cur s0)) by reflexivity.
+  assert (Hb1 : bounded s1) by (apply bounded_step; exact H0).
+  assert (Hcur1 : cur s1 = cur s0) by reflexivity.
   assert (Hc1 : clock s1 = clock s0 + 1) by apply clock_step.
   set (s2 := fold_left step mid1 s1).
-  assert (Hr2 : recorded s2 = Some (mtime s0)) by (unfold s2; rewrite fold_recorded by exact H1; exact Hr1).
-  assert (Hm2 : mtime s2 <= clock s2) by (apply fold_mtime_le; exact Hm1).
+  assert (Hr2 : recorded s2 = Some (cur s0)) by (unfold s2; rewrite fold_recorded by exact H1; exact Hr1).
+  assert (Hb2 : bounded s2) by (apply fold_bounded; exact Hb1).
   assert (Hc2 : clock s1 <= clock s2) by (unfold s2; rewrite fold_clock; lia).
+  destruct (fold_mono mid1 s1 Hb1) as [Hm2 Hi2]. fold s2 in Hm2, Hi2. rewrite Hcur1 in Hm2, Hi2.
   set (s3 := step s2 (Env c)).
-  assert (Hm3 : mtime s3 = clock s2 + 1) by (destruct c; try discriminate; reflexivity).
-  assert (Hr3 : recorded s3 = Some (mtime s0)) by (destruct c; exact Hr2).
-  assert (Hk3 : mtime s3 <= clock s3) by (apply mtime_le_clock_step; exact Hm2).
+  assert (Hr3 : recorded s3 = Some (cur s0)) by (destruct c; exact Hr2).
+  assert (Hb3 : bounded s3) by (apply bounded_step; exact Hb2).
+  assert (Hnew : i_mtime (cur s3) = clock s2 + 1 \/ i_ino (cur s3) = clock s2 + 1) by (destruct c; try discriminate; cbn; auto).
   set (s4 := fold_left step mid2 s3).
-  assert (Hr4 : recorded s4 = Some (mtime s0)) by (unfold s4; rewrite fold_recorded by exact H2; exact Hr3).
-  assert (Hm4 : mtime s3 <= mtime s4) by (apply fold_mtime_mono; exact Hk3).
-  rewrite verify_verdict, Hr4. f_equal. apply Z.eqb_neq. lia.
+  assert (Hr4 : recorded s4 = Some (cur s0)) by (unfold s4; rewrite fold_recorded by exact H2; exact Hr3).
+  destruct (fold_mono mid2 s3 Hb3) as [Hm4 Hi4]. fold s4 in Hm4, Hi4.
+  rewrite verify_verdict, Hr4. f_equal. unfold ident_eqb.
+  destruct H0 as [H0m H0i]. destruct Hb2 as [Hb2m Hb2i].
+  destruct Hnew as [Hn|Hn].
+  - assert (E : i_mtime (cur s0) =? i_mtime (cur s4) = false) by (apply Z.eqb_neq; lia). rewrite E. reflexivity.
+  - assert (E : i_ino (cur s0) =? i_ino (cur s4) = false) by (apply Z.eqb_neq; lia). rewrite E. rewrite andb_false_r. reflexivity.
 Qed.
 
 (* no modification between open and verify: no error *)
 Definition quiet (evs : list event) : Prop := Forall (fun e => match e with Env _ | WOpen => False | _ => True end) evs.
-Lemma fold_quiet : forall evs s, quiet evs -> mtime (fold_left step evs s) = mtime s /\ recorded (fold_left step evs s) = recorded s.
+Lemma fold_quiet : forall evs s, quiet evs -> cur (fold_left step evs s) = cur s /\ recorded (fold_left step evs s) = recorded s.
 Proof.
   induction evs as [|e r IH]; intros s H; cbn [fold_left]; [split; reflexivity|]. inversion H as [|? ? He Hr]; subst.
   destruct (IH (step s e) Hr) as (A & B). rewrite A, B. destruct e as [[]| | | | |]; try contradiction; split; reflexivity.
 Qed.
+Lemma ident_eqb_refl i : ident_eqb i i = true.
+Proof. unfold ident_eqb. rewrite !Z.eqb_refl. reflexivity. Qed.
 Theorem unchanged_input_is_accepted before mid :
   quiet mid -> verdict (run (before ++ [WOpen] ++ mid ++ [WVerify])) = Some true.
 Proof.
   intros H. unfold run. rewrite !fold_left_app. cbn [fold_left]. fold (run before). rewrite verify_verdict.
-  destruct (fold_quiet mid (step (run before) WOpen) H) as (A & B). rewrite A, B. cbn. rewrite Z.eqb_refl. reflexivity.
+  destruct (fold_quiet mid (step (run before) WOpen) H) as (A & B). rewrite A, B. cbn [recorded step]. rewrite ident_eqb_refl. reflexivity.
 Qed.
